@@ -495,6 +495,36 @@ func (c *Ctx) ruleKindStorage() {
 							out[fkey{typeStr(deref(fa.X.Type())), fa.Field}] = true
 						}
 					}
+				case *ssa.Call:
+					// the address of the field handed to a product helper that writes through it
+					// (appendUnder(&x.lists, key, value))
+					callee := x.Call.StaticCallee()
+					if callee == nil || !P.IsProductFunc(callee) || len(callee.Blocks) == 0 {
+						return
+					}
+					for i, a := range x.Call.Args {
+						fa, ok := a.(*ssa.FieldAddr)
+						if !ok || i >= len(callee.Params) {
+							continue
+						}
+						prm := callee.Params[i]
+						writes := false
+						allInstrs(callee, func(_ *ssa.BasicBlock, ci ssa.Instruction) {
+							switch y := ci.(type) {
+							case *ssa.Store:
+								if y.Addr == ssa.Value(prm) {
+									writes = true
+								}
+							case *ssa.MapUpdate:
+								if ld, ok := y.Map.(*ssa.UnOp); ok && ld.X == ssa.Value(prm) {
+									writes = true
+								}
+							}
+						})
+						if writes {
+							out[fkey{typeStr(deref(fa.X.Type())), fa.Field}] = true
+						}
+					}
 				}
 			})
 		}
